@@ -57,12 +57,20 @@ def contract(cls):
 def resolve(target):
     """'mido.messages.decode:decode_message' -> python object (function / class attribute)"""
     modname, qual = target.split(':')
-    obj = importlib.import_module(modname)
-    owner = None
-    for part in qual.split('.'):
-        owner = obj
-        obj = inspect.getattr_static(obj, part) if inspect.isclass(obj) else getattr(obj, part)
+    try:
+        obj = importlib.import_module(modname)
+        owner = None
+        for part in qual.split('.'):
+            owner = obj
+            obj = inspect.getattr_static(obj, part) if inspect.isclass(obj) else getattr(obj, part)
+    except (ImportError, AttributeError) as ex:
+        raise TargetMissing('%s is not in the code any more (%s)' % (target, ex))
     return obj, owner
+
+
+class TargetMissing(Exception):
+    """a function a contract is written for (or hooks) no longer exists under that name: the contract does not apply -
+    its obligations are UNDECIDED, not violated and not a checker error"""
 
 
 def raw_function(target):
